@@ -431,6 +431,11 @@ def c08(res: Result):
                     + [{"op": "cand", "n": k, "greedy": g, "sim": o} for k in (1, 2, 3, 4)])
     tasks += feature_tasks("f", pats)
     tasks += gadget_tasks("h", pats)
+    # simulation without the greedy ASP pass (several candidates reach the random walk) on (pseudo-)minimal nodes
+    simpats = [[{"op": "cand", "n": 1, "greedy": False, "sim": True}],
+               [FULL_BFS] + [{"op": "cand", "n": k, "greedy": False, "sim": True} for k in range(1, 9)]]
+    tasks += feature_tasks("fs", simpats, kinds=["sync_escape", "multi_complex_in_min_trap", "complex_attr", "multi_attr_in_min_trap"], max_n=6)
+    tasks += gadget_tasks("hs", simpats)
     invs = ["Inv_Covers", "Inv_HANG"]
     res.cov["rule"] = ("node_attractor_candidates on expanded, unexpanded and skipped nodes under all 4 option combinations and a grid of "
                        "configuration values (candidate limit and optimisation threshold in {0,1,2,3,default}, simulation budget {0,1,default}, "
